@@ -4,13 +4,14 @@
    case mapping is irregular).  Exhaustive up to MaxTokens; `-simulate` walks beyond. *)
 EXTENDS Integers, Sequences, FiniteSets, TLC
 
-CONSTANTS MaxTokens
+CONSTANTS MaxTokens,
+          Plan       \* <<>> = any token at any position; otherwise the set of pool indices allowed at each position
 
 Pool == <<"twenty", "one", "3.5", "1,000", "$", "dollars", "and", "cents", "%", "percent", "kg", "°C", "tomorrow", "at", "5pm", "May", "3rd",
           "2019-03-10", "12/31", "next", "week", "from", "to", "192.168.0.1", "::1", "a@b.com", "www.bing.com", "#tag", "@me", "yes", "no", "ok",
           "１２３", "５", "，", "．", "（", "）", "％", "：", "三", "十", "万", "点", "五", "月", "日", "明天", "三点", "美元", "公斤", "元",
           "İ", "ẞ", "ﬁ", "K", "ß", "é", "Ω", "-", "–", "(", ")", ".", ",", "!", "?", "\"", "'", "the", "of", "I", "am", "years", "old", "since",
-          "before", "around", "half", "dozen", "first", "1st", "zwei", "deux", "dos", "uno", "mil", "euros", "às", "08:30", "T", "P", "x">>
+          "before", "around", "half", "dozen", "first", "1st", "zwei", "deux", "dos", "uno", "mil", "euros", "às", "08:30", "T", "P", "x", "M", "G", "B", "MB", "kB">>
 Spaces == <<" ", "", "  ", " ">>
 
 (* TLC 1.8 mangles non-Latin-1 strings that are created in successor states and then pass through
@@ -21,11 +22,19 @@ ASSUME PrintT(<<"POOL", Pool, Spaces>>)
 VARIABLES toks, sp, pc
 vars == <<toks, sp, pc>>
 Init == toks = <<>> /\ sp = <<>> /\ pc = "grow"
+IdxOf(w) == CHOOSE k \in 1..Len(Pool) : Pool[k] = w
+Idx(ws) == { IdxOf(w) : w \in ws }
+NoPlan == <<>>
+(* a case-irregular letter, a unit letter the number models protect from lower-casing, then one or two entities: the
+   offsets of the entities must survive both pre-processing steps together *)
+Plan4 == << Idx({"İ", "ẞ", "ﬁ", "ß"}), Idx({"K", "M", "G", "B", "MB", "kB"}),
+            Idx({"twenty", "3.5", "1,000", "dollars", "kg", "percent", "5pm", "and"}), Idx({"3.5", "dollars", "years", "１２３"}) >>
 Add(k, s) == /\ pc = "grow" /\ Len(toks) < MaxTokens
+             /\ (Plan = <<>> \/ (Len(toks) < Len(Plan) /\ k \in Plan[Len(toks) + 1] /\ s = 1))
              /\ toks' = Append(toks, k)
              /\ sp' = Append(sp, s)
              /\ UNCHANGED pc
-Stop == pc = "grow" /\ Len(toks) > 0 /\ pc' = "done" /\ UNCHANGED <<toks, sp>>
+Stop == pc = "grow" /\ Len(toks) > 0 /\ (Plan = <<>> \/ Len(toks) >= 3) /\ pc' = "done" /\ UNCHANGED <<toks, sp>>
 Next == (\E k \in 1..Len(Pool), s \in {1, 2} : Add(k, s)) \/ Stop
 Spec == Init /\ [][Next]_vars
 =============================================================================
